@@ -22,7 +22,7 @@ def prop(pid, **kw):
 
 prop("C20",
      rule="unit: random buffers x indices for Position::from_index / Error::syntax / Parser::error clamp; API: generated documents (depth<=3, multi-line variants) mutated once (truncate/substitute/insert/delete/bad UTF-8/bad escape/duplicate structural/trailing/swap) x 24 error-returning entry points + get/get_many with a generated path + stream/iterator polled 4 times past the end; non-trivial = distinct (op,args) with offset>0",
-     unit_ops={"synlr", "perridx"},
+     unit_ops={"synlr", "perridx", "t2"}, funcs=True,
      assumptions=["String::from_utf8_lossy / format! used by Error::syntax do not panic (std)", "the serde visitor error path reaches Parser::fix_position (checked by the API-level cases only)"])
 
 prop("C02",
